@@ -85,6 +85,10 @@ var c09NumTable = map[string]c09Num{
 	// every documented SI and IEC prefix up to Y / Yi (added after a seeded change made Zi/Yi parse as 0)
 	"1P": {0, 1e15}, "1E": {0, 1e18}, "1Z": {0, 1e21}, "1Y": {0, 1e24}, "3YB": {0, 3e24},
 	"1Ti": {0, 1 << 40}, "1Pi": {0, 1 << 50}, "1Ei": {0, 1 << 60}, "1Zi": {0, 1180591620717411303424}, "2ZiB": {0, 2361183241434822606848}, "1Yi": {0, 1208925819614629174706176}, "3YiB": {0, 3626777458843887524118528},
+	// zero-padded integers of differing widths next to unpadded and fractional
+	// neighbours (added after a seeded change compared all-digit strings by
+	// length first: 008 > 16, and cyclic with 10.5 in between)
+	"008": {0, 8}, "16": {0, 16}, "016": {0, 16}, "010": {0, 10}, "0010": {0, 10}, "11": {0, 11}, "10.5": {0, 10.5}, "9.5": {0, 9.5}, "007": {0, 7}, "00": {0, 0}, "0100": {0, 100}, "99": {0, 99},
 	"+Inf": {0, math.Inf(1)}, "Inf": {0, math.Inf(1)}, "-Inf": {0, math.Inf(-1)},
 	"NaN": {c09NaN, 0}, "nan": {c09NaN, 0},
 	"": {c09NonNumber, 0}, "abc": {c09NonNumber, 0}, "x": {c09NonNumber, 0}, "foo": {c09NonNumber, 0}, "zed": {c09NonNumber, 0}, "Q": {c09NonNumber, 0},
